@@ -296,6 +296,13 @@ func stamp(path string) {
 	st.mu.Unlock()
 }
 
+// stampDir records that an entry of path's directory was created, removed or
+// renamed now: the kernel moves the directory's own mtime on such changes (and
+// on no others - writing to or touching a file inside it does not).
+func stampDir(path string) {
+	stamp(filepath.Dir(clean(path)))
+}
+
 func errnoOf(s string) error {
 	switch s {
 	case "ENOSPC":
@@ -553,6 +560,7 @@ func Remove(name string) error {
 		st.mu.Lock()
 		delete(st.mtimes, clean(name))
 		st.mu.Unlock()
+		stampDir(name)
 	}
 	proc, _ := curProc()
 	d.after(proc)
@@ -582,7 +590,24 @@ func MkdirAll(path string, perm fs.FileMode) error {
 	if proc, t := curProc(); t != nil && IsDead(proc) {
 		return deadErr(t, proc)
 	}
-	return os.MkdirAll(path, perm)
+	// which directories does this call create?
+	var made []string
+	for p := clean(path); ; p = filepath.Dir(p) {
+		if _, err := os.Lstat(p); err == nil || p == filepath.Dir(p) {
+			break
+		}
+		made = append(made, p)
+	}
+	err := os.MkdirAll(path, perm)
+	if err == nil {
+		for _, p := range made {
+			stamp(p)
+		}
+		if len(made) > 0 {
+			stampDir(made[len(made)-1])
+		}
+	}
+	return err
 }
 
 func Open(name string) (*File, error) { return OpenFile(name, os.O_RDONLY, 0) }
@@ -624,6 +649,9 @@ func OpenFile(name string, flag int, perm fs.FileMode) (*File, error) {
 	st.mu.Unlock()
 	if !existed || flag&os.O_TRUNC != 0 {
 		stamp(name)
+	}
+	if !existed {
+		stampDir(name)
 	}
 	d.after(proc)
 	return f, nil
@@ -1234,22 +1262,74 @@ func simple(op, name string, f func() error) error {
 }
 
 func RemoveAll(path string) error {
-	return simple("removeall", path, func() error { return os.RemoveAll(path) })
+	return simple("removeall", path, func() error {
+		_, lerr := os.Lstat(path)
+		err := os.RemoveAll(path)
+		if err == nil && lerr == nil {
+			pre := clean(path)
+			st.mu.Lock()
+			for k := range st.mtimes {
+				if k == pre || strings.HasPrefix(k, pre+string(filepath.Separator)) {
+					delete(st.mtimes, k)
+				}
+			}
+			st.mu.Unlock()
+			stampDir(path)
+		}
+		return err
+	})
 }
+
+// Rename keeps the file's (shadow) mtime, as the kernel does, and moves the
+// mtimes of both directories.
 func Rename(oldpath, newpath string) error {
-	return simple("rename", oldpath, func() error { return os.Rename(oldpath, newpath) })
+	return simple("rename", oldpath, func() error {
+		err := os.Rename(oldpath, newpath)
+		if err == nil {
+			o, n := clean(oldpath), clean(newpath)
+			st.mu.Lock()
+			moved := map[string]time.Time{}
+			for k, v := range st.mtimes {
+				if k == o || strings.HasPrefix(k, o+string(filepath.Separator)) {
+					moved[n+k[len(o):]] = v
+					delete(st.mtimes, k)
+				}
+			}
+			if _, ok := moved[n]; !ok {
+				delete(st.mtimes, n)
+			}
+			for k, v := range moved {
+				st.mtimes[k] = v
+			}
+			st.mu.Unlock()
+			stampDir(oldpath)
+			stampDir(newpath)
+		}
+		return err
+	})
 }
 func Chmod(name string, mode fs.FileMode) error {
 	return simple("chmod", name, func() error { return os.Chmod(name, mode) })
 }
 func Symlink(oldname, newname string) error {
-	return simple("symlink", newname, func() error { return os.Symlink(oldname, newname) })
+	return simple("symlink", newname, func() error { return made(newname, os.Symlink(oldname, newname), false) })
 }
 func Link(oldname, newname string) error {
-	return simple("link", newname, func() error { return os.Link(oldname, newname) })
+	return simple("link", newname, func() error { return made(newname, os.Link(oldname, newname), false) })
 }
 func Mkdir(name string, perm fs.FileMode) error {
-	return simple("mkdir", name, func() error { return os.Mkdir(name, perm) })
+	return simple("mkdir", name, func() error { return made(name, os.Mkdir(name, perm), true) })
+}
+
+// made records a new directory entry (and, for a directory, its own mtime).
+func made(name string, err error, own bool) error {
+	if err == nil {
+		if own {
+			stamp(name)
+		}
+		stampDir(name)
+	}
+	return err
 }
 
 // MkdirTemp creates a directory with a deterministic name (a per-run counter
@@ -1272,7 +1352,7 @@ func MkdirTemp(dir, pattern string) (string, error) {
 			name = filepath.Join(dir, fmt.Sprintf("%s%06d%s", prefix, n, suffix))
 			err := os.Mkdir(name, 0o700)
 			if err == nil {
-				return nil
+				return made(name, nil, true)
 			}
 			if !os.IsExist(err) {
 				return err
